@@ -385,7 +385,8 @@ fn csystem_case(n: usize, gi: usize, tol: f64, max_iter: usize, exact_jac: bool,
 /// affine systems T (x - r) with dyadic T and roots of size 1.5e3 .. 1.2e4 (well inside |x| < 2^27, where the absolute difference step
 /// 1e-8 still works): a finite-difference Jacobian formed with any step much smaller than 1e-8 (say the tolerance 1e-12) is 10..80 %
 /// wrong there, and a pivot search that mishandles a NEGATIVE diagonal entry with exact zeros below it (triangular T) produces NaN.
-/// kind 0: upper triangular cascade with a negative diagonal; 1: lower triangular; 2: the dense dominant matrix of the other families
+/// kind 0: upper triangular cascade with a negative diagonal; 1: lower triangular; 2: the dense dominant matrix of the other families;
+/// 3: that matrix with its rows rotated (a row exchange at every elimination step)
 fn large_root_affine_case(n: usize, kind: usize, complex: bool, exact_jac: bool) -> Result<(), String> {
     large_root_affine_case_at(n, kind, complex, exact_jac, 1.0, None)
 }
@@ -405,6 +406,12 @@ fn large_root_affine_case_at(n: usize, kind: usize, complex: bool, exact_jac: bo
     }
     if kind == 2 {
         t = dmat(n);
+    }
+    if kind == 3 {
+        // the dense dominant matrix with its rows rotated by one: the dominant entry of column k sits in row k - 1 (row n - 1 for k = 0),
+        // so the dense solve behind every system variant has to exchange rows at every step, also at steps k >= 1
+        let d = dmat(n);
+        t = (0..n).map(|i| d[(i + 1) % n].clone()).collect();
     }
     let rr: Vec<f64> = [1536.0, -3000.0, 12288.0, -2048.0, 5120.0, -1792.0].iter().map(|v| v * far).collect();
     let ri: Vec<f64> = [1024.0, -512.0, 0.0, 4096.0, -2560.0, 768.0].iter().map(|v| v * far).collect();
@@ -1148,11 +1155,11 @@ fn main() {
         );
     }
     ctx.lattice(
-        "affine systems with roots of size 1.5e3..1.2e4: dimension 1..6 x {upper triangular with negative diagonal, lower triangular, dense dominant} x {real, complex} x {finite-difference, supplied} Jacobian, tol 1e-12, 8 iterations",
-        6 * 3 * 4,
-        |idx| format!("n={} kind={} variant={}", 1 + idx / 12, (idx / 4) % 3, idx % 4),
+        "affine systems with roots of size 1.5e3..1.2e4: dimension 1..6 x {upper triangular with negative diagonal, lower triangular, dense dominant, dense dominant with rotated rows} x {real, complex} x {finite-difference, supplied} Jacobian, tol 1e-12, 8 iterations",
+        6 * 4 * 4,
+        |idx| format!("n={} kind={} variant={}", 1 + idx / 16, (idx / 4) % 4, idx % 4),
         |idx, acc| {
-            let (n, kind, var) = (1 + (idx / 12) as usize, ((idx / 4) % 3) as usize, idx % 4);
+            let (n, kind, var) = (1 + (idx / 16) as usize, ((idx / 4) % 4) as usize, idx % 4);
             acc.nontriv("system with roots of size >= 1.5e3");
             judge(acc, idx, || format!("large-root affine n={} kind={} complex={} supplied={}", n, kind, var >= 2, var % 2 == 1), || large_root_affine_case(n, kind, var >= 2, var % 2 == 1));
             // roots beyond 2^27 with a configured step 2^-8 (the default 1e-8 is absorbed there - a known finding; a configured step must be used)
